@@ -154,14 +154,15 @@ CLAIMED = {
             "is served (serves_from_signer, any platform), and so is one in bootloader mode with a supported UI, a "
             "correct echo, enough retries and an accepted PIN of any length that needs no change and lands in such "
             "a signer after the reconnection, whatever became of the exit command (serves_after_unlock, Ledger / "
-            "TCP platforms; Proofs/BringUpServe.lean evaluates the bring-up on the symbolic answers); the version relation is "
+            "TCP platforms; serves_after_unlock_sgx with the SGX echo / retries / one-message unlock; "
+            "Proofs/BringUpServe*.lean evaluate the bring-up on the symbolic answers); the version relation is "
             "characterised for all naturals and equals the property's; constants 5.4.1 / two retries as specified. "
             "The model (initialize_device, _handle_bootloader, PIN object, three platforms, TCPServer.run's "
             "exception map) is tied to the real TCPServer.run by correspondence; the oracle Spec.C09.c09 checks on "
             "the implementation's trace: unlock at most once, PIN only after establishing answers, served exactly "
             "when the simulated device's actual state makes it safe (ground truth), over the full state product.",
-            "the converse direction on the SGX platform, and 'stops without serving in every other case' beyond "
-            "served_only_if, are decided by the exhaustive grid (correspondence + oracle), not by a theorem"),
+            "'stops without serving in every other case' beyond served_only_if is decided by the exhaustive grid "
+            "(correspondence + oracle), not by a theorem"),
     "C10": ("Lean theorems about an explicit machine over (PIN file, device PIN, default) with faults and crash "
             "points at every step boundary of the change protocol: the file changes only after the device's ack "
             "and then holds that PIN; refused/failed/aborted changes leave everything untouched; the manager "
